@@ -96,6 +96,17 @@ def v_time_ns():
     return int(v_time() * 1e9)
 
 
+def v_process_time():
+    """CPU time of the process: simulated work only -- stalls, sleeps and clock jumps (mono_off) are
+    time during which the process did not run."""
+    S.clock_reads += 1
+    return S.work * S.tick
+
+
+def v_process_time_ns():
+    return int(v_process_time() * 1e9)
+
+
 def v_sleep(d):
     S.mono_off += max(0.0, float(d))
 
@@ -178,6 +189,12 @@ def install():
     _time.time_ns = v_time_ns
     _time.perf_counter_ns = v_monotonic_ns
     _time.sleep = v_sleep
+    # CPU clocks are part of the seam too: an engine that measured its limit in CPU time would
+    # otherwise read the real one
+    _time.process_time = v_process_time
+    _time.process_time_ns = v_process_time_ns
+    _time.thread_time = v_process_time
+    _time.thread_time_ns = v_process_time_ns
     if "microjs" in sys.modules:
         raise HarnessError("microjs imported before the clock seam was installed")
     sys.path.insert(0, REPO_SRC)
